@@ -571,6 +571,41 @@ pub fn c11(g: &mut Gen) {
             }
         }
     }
+    // "with shared weights" also after training: dense, convolution and deconvolution blocks are trained for a few steps
+    // (the repetitions must still be one layer sequence applied L times)
+    {
+        let opts = [OptSpec::Sgd(0.05, None), OptSpec::Adam(0.01, 0.9, 0.999, 1e-8, None)];
+        let mut kk = 0;
+        for loops in [2usize, 3] {
+            for spatial in [false, true] {
+                for (i, o) in [(false, false), (true, true)] {
+                    kk += 1;
+                    let (mut net, out) = block_net(g, &cfg, loops, i, o, "add", spatial, true, false);
+                    net.opt = Some(opts[kk % 2].clone());
+                    let s = samples_tok(g, &net, &out, 3);
+                    g.push(format!("net {} learn 3 {} 0 2 2 0", net.token(), s), Tol::Loose, &format!("trained-block/L{}/{}", loops, if spatial { "spatial" } else { "flat" }), true);
+                }
+            }
+            let dc = InnerSpec::Deconv { filters: 1, act: "tanh".into(), k: (3, 3), s: (1, 1), p: (1, 1), dropout: None, ks: vec![weights(g, &Shape::Triple(1, 3, 3), 0.4)] };
+            let mut net = NetSpec { input: Shape::Triple(1, 4, 4), builds: vec![Build::Feedback { inner: vec![dc], loops, inskips: false, outskips: false, acc: "mean".into() },
+                Build::Layer(dense_spec(g, &cfg, 16, 2, "tanh", true))], skipacc: "add".into(), loopacc: "mean".into(), opt: None, obj: "mse".into(), clamp: None };
+            net.opt = Some(opts[loops % 2].clone());
+            let s = samples_tok(g, &net, &Sh::Flat(2), 4);
+            g.push(format!("net {} learn 4 {} 0 2 2 0", net.token(), s), Tol::Loose, &format!("trained-block/deconv/L{}", loops), true);
+        }
+    }
+    // multiplicative accumulation at the edge of the number range: a repetition that overflows to infinity times a
+    // zero of the block input is NaN, not zero (element-wise IEEE arithmetic in the accumulation, also at rank 3)
+    {
+        let k = Tensor::triple(vec![vec![vec![0.0, 0.0, 0.0], vec![4.0, 1.0, 4.0], vec![0.0, 0.0, 0.0]]]);
+        let c = InnerSpec::Conv { filters: 1, act: "linear".into(), k: (3, 3), s: (1, 1), p: (1, 1), d: (1, 1), dropout: None, ks: vec![k] };
+        for (acc, x) in [("mul", vec![0.0f32, 2.0f32.powi(126), 1.0]), ("mul", vec![0.0, 3.0, 1.0]), ("mul", vec![-0.0, -2.0f32.powi(126), 1.0]), ("add", vec![0.0, 2.0f32.powi(126), 1.0])] {
+            let net = NetSpec { input: Shape::Triple(1, 1, 3), builds: vec![Build::Feedback { inner: vec![c.clone()], loops: 2, inskips: true, outskips: false, acc: acc.into() }],
+                skipacc: "add".into(), loopacc: "mean".into(), opt: None, obj: "mse".into(), clamp: None };
+            let xt = Tensor::triple(vec![vec![x]]);
+            g.push(format!("net {} predict {}", net.token(), qt(&xt)), Tol::Tight, "overflowing-multiply", true);
+        }
+    }
     // a block whose output shape differs from its input shape is refused; zero loops are refused
     let bad = NetSpec { input: Shape::Single(3), builds: vec![Build::Feedback { inner: vec![dense_spec(g, &cfg, 3, 2, "tanh", true)], loops: 2, inskips: false, outskips: false, acc: "add".into() }],
         skipacc: "add".into(), loopacc: "mean".into(), opt: None, obj: "mse".into(), clamp: None };
